@@ -457,15 +457,17 @@ class HoldInDm1:
     """trace factory: numbers the line events the job thread of stack A executes in diagnostic_messages.py; at the chosen one
     a DM1 from a third node is put on the bus and the job thread is held until it has been handled by A's receive thread"""
 
-    def __init__(self, point, frame):
+    def __init__(self, point, frame, kind='J', hold=0.003):
         self.point, self.frame = point, frame
         self.count = 0
         self.where = None
         self.bus = None
         self.seen_j = 0
+        self.kind = kind            # 'J': the job thread of stack A is held (and the frame injected); 'R': its receive thread is held
+        self.hold = hold
 
     def __call__(self, lt, idx):
-        if lt.kind != 'J':
+        if lt.kind != self.kind:
             return None
         k = self.seen_j
         self.seen_j += 1
@@ -481,8 +483,9 @@ class HoldInDm1:
                 me.count += 1
                 if me.count == me.point:
                     me.where = "%s:%d" % (frame.f_code.co_name, frame.f_lineno)
-                    me.bus.ghost_node().send(*me.frame)
-                    rt.CUR.hold(0.003)
+                    if me.frame is not None:
+                        me.bus.ghost_node().send(*me.frame)
+                    rt.CUR.hold(me.hold)
             return tracer
         return tracer
 
@@ -534,6 +537,64 @@ def race_worker(item):
         if probs:
             acc.violation(csig(probs[0]), sc, None, probs[:3] + ["held at %s" % where])
     acc.sample({'part': 'job thread pre-empted in the DM1 code', 'dtc_count': n, 'line_events': total})
+    return acc
+
+
+def race_rx_worker(item):
+    """the mirror image: the receive thread of the node is held at every source line of the DM1 code while it handles the DM1
+    of a third node, long enough for the node's own cyclic DM1 to be built and sent in between: the subscriber still gets the
+    third node's lamp states and trouble codes under the third node's address"""
+    _k, dll, n, seed = item
+    acc = Acc()
+    tabA = [{'spn': 100 + i, 'fmi': 1 + i, 'oc': 2 + i} for i in range(n)]
+    lampA = {'pl': 1, 'awl': 0, 'rsl': 0, 'mil': 2}
+    refA = bytes(R.dm1_encode(lampA, tabA))
+    lampF, tabF = {'pl': 0, 'awl': 3, 'rsl': 1, 'mil': 0}, [{'spn': 0x7777, 'fmi': 9, 'oc': 33}]
+    foreign = ((6 << 26) | (0xFE << 16) | (0xCA << 8) | 0x33, bytes(R.dm1_encode(lampF, tabF)) + b'\xff\xff')
+
+    def one(point):
+        hold = HoldInDm1(point, None, kind='R', hold=0.02)
+        p = Pair('j1939-21', trace_factory=hold)
+        hold.bus = p.bus
+        try:
+            w = p.w
+            p.A.start_rx_thread()
+            dA = j1939.Dm1(p.acas[0])
+            gotA = []
+            dA.subscribe(lambda sa, lamps, dtcs, ts: gotA.append((sa, lamp_name(lamps), [dict(d) for d in dtcs])))
+            cyc = 0.1 if n == 1 else 0.4
+            dA.start_send(lambda: (dict(lampA), [dict(d) for d in tabA]), cyc)
+            # the third node's DM1 arrives 10 ms before the node's own cycle is due: a hold of 20 ms spans the own _send
+            w.run_for(cyc - 0.011)
+            p.bus.ghost_node().send(*foreign)
+            w.run_for(cyc * 2 + 0.2)
+            probs = []
+            fromA = [b for (_t, sa, b) in p.dm1_payloads_all() if sa == 0x10]
+            if len(fromA) < 2:
+                probs.append("DM1 cycles missing on the bus (%d messages)" % len(fromA))
+            if any(b != refA for b in fromA):
+                probs.append("a node's DM1 does not carry what its callback supplied: a DM1 of another node was received while it was being built")
+            if gotA != [(0x33, lamp_name(lampF), tabF)]:
+                probs.append("the subscriber did not get the third node's DM1 as sent (the node's own DM1 was built while it was being handled): %r" % (gotA[:1],))
+            if p.A.job.exc is not None:
+                probs.append("job thread dead: %s" % p.A.job.exc_type)
+            if p.A.rx_raised:
+                probs.append("receive thread: handler raised %s" % p.A.rx_raised[0])
+            return hold.count, probs, hold.where
+        finally:
+            p.close()
+    total, probs, _ = one(0)
+    total2 = one(0)[0]
+    if total != total2 or probs or not total:
+        acc.violation("HARNESS: DM1 receive race baseline not clean / not reproducible", {'part': 'dm1 race rx', 'dtc_count': n}, None, probs[:2] + [repr((total, total2))])
+        return acc
+    for point in range(1, total + 1):
+        _c, probs, where = one(point)
+        sc = {'part': 'receive thread pre-empted in the DM1 code', 'dll': 'j1939-21', 'dtc_count': n, 'point': point}
+        acc.case(repr(sc), outcome=(bool(probs), where))
+        if probs:
+            acc.violation(csig(probs[0]), sc, None, probs[:3] + ["held at %s" % where])
+    acc.sample({'part': 'receive thread pre-empted in the DM1 code', 'dtc_count': n, 'line_events': total})
     return acc
 
 
@@ -612,6 +673,8 @@ def worker(item):
         return dynsub_worker(item)
     if item[0] == 'race':
         return race_worker(item)
+    if item[0] == 'race_rx':
+        return race_rx_worker(item)
     return {'dtc': dtc_worker, 'dm1': dm1_worker, 'dm22': dm22_worker, 'hist': hist_worker, 'overlap': overlap_worker}[item[0]](item)
 
 
@@ -658,6 +721,7 @@ def run(tier, seed):
         items.append(('dynsub', dll, seed))
     for n in (1, 2, 5):
         items.append(('race', 'j1939-21', n, seed))
+        items.append(('race_rx', 'j1939-21', n, seed))
     return run_check(PROP, tier, seed, 'exploration', items, worker, RULE, ASSUME,
                      bounds={'dtc_counts': '1..400' if not quick else counts, 'history_depth': 3 if quick else 4})
 
@@ -678,6 +742,10 @@ def replay(rec):
         a = exchange_worker(('exchange', sc['dll'], sc['dtc_count'], rec.get('seed', 0)))
     elif part == 'job thread pre-empted in the DM1 code':
         a0 = race_worker(('race', sc['dll'], sc['dtc_count'], rec.get('seed', 0)))
+        a = Acc()
+        a.violations = [v for v in a0.violations if v['scenario'] == sc]
+    elif part == 'receive thread pre-empted in the DM1 code':
+        a0 = race_rx_worker(('race_rx', sc['dll'], sc['dtc_count'], rec.get('seed', 0)))
         a = Acc()
         a.violations = [v for v in a0.violations if v['scenario'] == sc]
     elif part == 'subscriber unsubscribes inside its callback':
